@@ -427,6 +427,13 @@ def run_download(world, plan, base):
     os.makedirs(dest)
     os.makedirs(os.path.join(out, 'dir'))
 
+    # the destination the caller names is dest/got: its parent and its
+    # sibling must stay as they are
+    got = os.path.join(dest, 'got')
+
+    with open(os.path.join(dest, 'keep.txt'), 'wb') as f:
+        f.write(b'keep\n')
+
     with open(os.path.join(out, 'secret.txt'), 'wb') as f:
         f.write(b'secret\n')
 
@@ -548,15 +555,15 @@ def run_download(world, plan, base):
         try:
             if plan['pop'] == 'get':
                 sftp = await conn.start_sftp_client()
-                fsaudit.start(dest, allow=[os.environ.get('HOME', '/none'),
-                                           '/etc/ssh'])
-                await sftp.get('/src', os.path.join(dest, 'got'),
+                fsaudit.start(got, allow=[os.environ.get('HOME', '/none'),
+                                          '/etc/ssh'])
+                await sftp.get('/src', got,
                                recurse=True, preserve=plan['preserve'],
                                error_handler=lambda exc: None)
             else:
-                fsaudit.start(dest, allow=[os.environ.get('HOME', '/none'),
-                                           '/etc/ssh'])
-                await asyncssh.scp((conn, 'src'), os.path.join(dest, 'got'),
+                fsaudit.start(got, allow=[os.environ.get('HOME', '/none'),
+                                          '/etc/ssh'])
+                await asyncssh.scp((conn, 'src'), got,
                                    recurse=True, preserve=plan['preserve'],
                                    error_handler=lambda exc: None)
         except Exception as exc: # pylint: disable=broad-except
@@ -575,7 +582,7 @@ def run_download(world, plan, base):
         recs = fsaudit.stop()
 
     after = fsaudit.snapshot(base)
-    dest_rel = 'dest'
+    dest_rel = os.path.join('dest', 'got')
 
     for rel in sorted(set(before) | set(after)):
         if rel == dest_rel or rel.startswith(dest_rel + os.sep):
